@@ -69,3 +69,9 @@ check('C03', 'simdist', 'exploration', 'online trace monitors (collective matchi
       'seven scheduler policies, late completion delivery and line-level callback-timing stress: every collective of every rank is matched online for kind, shape, dtype, root and group '
       'membership, group creation order is compared across ranks, and a stall is a logical verdict (no runnable rank).',
       'Asynchronous c10d semantics as implemented by simdist; DeepSpeed topology and Megatron layers are stand-ins; bounded histories.', 'DESIGN.md §3 C03')
+
+check('C08', 'simdist', 'exploration', 'differential oracle (bucketed vs direct group sum, position-revealing data) + backend trace segmentation monitor',
+      'Generated submission sequences over group mixtures (incl. distinct equal-size groups sharing a rank), capacities, dtypes (incl. mixed), flags and fill/flush cycles on 2-6 simulated ranks: '
+      'every future is compared exactly with the sum over the requested group and with the real unbucketed allreduce; the backend trace must be an order-preserving, capacity-respecting segmentation; '
+      'a second flush must issue nothing.',
+      'All members of a group submit the same tensors for that group in the same order; distinct groups means distinct member sets.', 'DESIGN.md §3 C08')
